@@ -674,6 +674,15 @@ class ConstructedPayloadDecoderBase(AbstractConstructedPayloadDecoder):
                 tagSet=tag.TagSet(protoComponent.tagSet.baseTag, *tagSet.superTags)
             )
 
+        if asn1Object is None:
+            # no components to guess from: an empty container
+            asn1Object = self.protoSequenceComponent.clone(
+                tagSet=tag.TagSet(
+                    self.protoSequenceComponent.tagSet.baseTag,
+                    *tagSet.superTags)
+            )
+            asn1Object.clear()
+
         if LOG:
             LOG('guessed %r container type (pass `asn1Spec` to guide the '
                 'decoder)' % asn1Object)
